@@ -436,6 +436,8 @@ def an_op(draw, version, form, usable, related, is_md):
             op["marking_ref"], op["lang"] = draw(st.booleans()), draw(st.booleans())
         if kind != "add" and draw(st.booleans()):
             op["pick"] = draw(st.integers(0, 11))
+        if kind in ("remove", "add") and draw(st.integers(0, 5)) == 0 and not op.get("single"):
+            op["markings"] = op["markings"] + op["markings"][:1]        # the same marking named twice in one call
     elif kind == "get":
         op["selectors"] = selectors(max_n=2)
         op["single"] = draw(st.booleans())
